@@ -222,7 +222,7 @@ def note_mod_resolves(H, shape):
 
 
 @contract(
-    "note_reference_survives_save_load", ["C14", "C01"],
+    "note_reference_survives_save_load", ["C14", "C01", "C12"],
     targets=["rv.project:Project.chunks", "rv.readers.sunvox:SunVoxReader.process_end_of_file", "rv.readers.sunvox:SunVoxReader.process_chunks",
              "rv.readers.sunvox:SunVoxReader.process_BVER", "rv.readers.sunvox:SunVoxReader.process_VERS", "rv.note:Note.raw_data (setter)"],
 )
